@@ -82,8 +82,9 @@ def run(ctx, proof):
             ng3, ng4 = (2, 1) if ctx.quick else (8, 2)
             for _ in range(ng3):
                 jobs.append((klass, comp, 3, "all"))
+            heavy = comp in ("sam_apx_100", "sam_apx_1000")
             for _ in range(ng4):
-                jobs.append((klass, comp, 4, "all" if not ctx.quick else "chains"))
+                jobs.append((klass, comp, 4, "all" if (not ctx.quick and not heavy) else "chains"))
             for _ in range(1 if ctx.quick else 4):
                 jobs.append((klass, comp, 5, "chains"))
     model_cases = []
